@@ -40,6 +40,7 @@ verus! {
 // `impl<E: Error> From<ProcessDataError> for BBIProcessError<E>`: the conversion behind the `?`s,
 // extracted as a free function (Verus `?` does not go through user `From` impls without extra specs).
 //@extract method bigtools/src/bbi/bbiwrite.rs from "From<ProcessDataError> for BBIProcessError"
+//@rule R16
 //@sub /fn from\(value: ProcessDataError\) -> Self/ => fn pde_into(value: ProcessDataError) -> BBIProcessError min=1
 //@end
 
@@ -366,6 +367,7 @@ proof fn lemma_full_run_is_balanced(base: Seq<Event>, q: Seq<Item>)
 // -- name comparisons (`str`/`String` operators -> Name functions)
 impl BedParserStreamingIterator {
 //@extract method bigtools/src/bbi/beddata.rs process_to_bbi "BBIDataSource for BedParserStreamingIterator"
+//@rule R16
 //@presub /fn process_to_bbi<.*?>\(\s*&mut self,.*?\) -> Result<\(\), BBIProcessError<Self::Error>> \{/ => fn process_to_bbi(&mut self, env: &mut Env) -> Result<(), BBIProcessError> { min=1 count=1
 //@presub /runtime\.block_on\(async move \{/ => { min=1 count=1
 //@presub /\}\)(\s*\}\s*)\Z/ => }\1 min=1 count=1
